@@ -151,6 +151,9 @@ func (g *gstate) logon(kind string) Op {
 	case "no-enc", "empty-enc": // EncryptMethod left out, or sent without a value: not a permitted method
 		enc = ""
 		label = "logon-bad-enc"
+	case "no-hb": // HeartBtInt left out: no interval, whatever an earlier Logon on this session carried
+		hb = 0
+		label = "logon-bad-hb"
 	case "edge-lo":
 		hb = sc.Lo
 	case "edge-hi":
@@ -188,6 +191,9 @@ func (g *gstate) logon(kind string) Op {
 	body := "98=" + enc + "\x01108=" + g.num(hb) + "\x01"
 	if kind == "no-enc" {
 		body = "108=" + g.num(hb) + "\x01"
+	}
+	if kind == "no-hb" {
+		body = "98=" + enc + "\x01"
 	}
 	if g.r.Chance(1, 3) {
 		body += "141=" + []string{"Y", "N"}[g.r.Intn(2)] + "\x01"
@@ -335,7 +341,7 @@ func genScenario(r *rng.R) (*Scenario, []string) {
 			sc.Ops = append(sc.Ops, g.logon(kinds[r.Intn(len(kinds))]))
 			loggedGuess = true
 		case c < 24:
-			kinds := []string{"bad-enc", "bad-hb-lo", "bad-hb-hi", "refused", "bad-both", "damaged-cs", "damaged-len", "nonnumeric-hb", "refused-bad-hb", "refused-bad-enc", "no-enc", "empty-enc"}
+			kinds := []string{"bad-enc", "bad-hb-lo", "bad-hb-hi", "refused", "bad-both", "damaged-cs", "damaged-len", "nonnumeric-hb", "refused-bad-hb", "refused-bad-enc", "no-enc", "empty-enc", "no-hb", "no-hb"}
 			k := kinds[r.Intn(len(kinds))]
 			if strings.HasPrefix(k, "refused") && sc.RefusedPw == "" {
 				k = "bad-enc"
@@ -362,6 +368,14 @@ func genScenario(r *rng.R) (*Scenario, []string) {
 				e = b
 			case 2:
 				b, e = r.Range(1, 4), r.Range(1, 40)
+			}
+			if r.Chance(1, 12) { // the ends of the integer range
+				ext := []int{-9223372036854775807, -4611686018427387904, 9223372036854775807, 4611686018427387904, -2147483648, 2147483647}
+				if r.Bool() {
+					b = ext[r.Intn(len(ext))]
+				} else {
+					e = ext[r.Intn(len(ext))]
+				}
 			}
 			op := g.admin("2", "7="+g.num(b)+"\x0116="+g.num(e)+"\x01", "resend")
 			op.ID, op.Ev = b, e
